@@ -576,3 +576,402 @@ def check_shared(rep, repo, base, roots):
     rep.ok('R17.h', '%s::render paths: per-request state' % SIMPLE,
            '%d function(s) on the render paths, %d write(s) to objects that outlive the call, %d of them history' % (len(scope), len(writes), n_leaks),
            repo.mod(SIMPLE), None)
+
+
+# ---------------------------------------------------------------------------------------------- shared recognisers
+def _module_scope(repo, roots):
+    """The functions of the two render modules that lie on the render paths."""
+    return [f for f in render_scope(repo, roots) if f.mod.name in (SIMPLE, TABULAR)]
+
+
+def _request_params(f):
+    return [p for p in f.params() if p not in ('self', 'cls')]
+
+
+def _query_param_read(fl, f, expr, at, depth=0):
+    """Every value that can flow into ``expr`` is ``<parameter>.args.get(self.qp_name[, None])`` -- the query parameter of the
+    request being rendered that this renderer was configured to read (format / callback)."""
+    if expr is None or depth > 4:
+        return False
+    lvs = fl.leaves(expr, at)
+    if not lvs:
+        return False
+    for lf in lvs:
+        if lf.opaque:
+            return False
+        v = fl.resolve(lf.value, lf.stmt)
+        if not (isinstance(v, ast.Call) and isinstance(v.func, ast.Attribute) and v.func.attr == 'get' and 1 <= len(v.args) <= 2
+                and not v.keywords):
+            return False
+        recv = v.func.value
+        if not (isinstance(recv, ast.Attribute) and recv.attr == 'args' and isinstance(recv.value, ast.Name) and
+                recv.value.id in _request_params(f)):
+            return False
+        if norm(v.args[0]) != 'self.qp_name':
+            return False
+        if len(v.args) == 2 and not (isinstance(v.args[1], ast.Constant) and v.args[1].value is None):
+            return False
+    return True
+
+
+def _absent_tested(t, p):
+    """The expression a path condition says is absent (None / falsy): ``not x`` / ``x is None`` true / ``x is not None`` false."""
+    if isinstance(t, ast.Compare) and len(t.ops) == 1 and isinstance(t.comparators[0], ast.Constant) and t.comparators[0].value is None:
+        if (isinstance(t.ops[0], (ast.Is, ast.Eq)) and p is True) or (isinstance(t.ops[0], (ast.IsNot, ast.NotEq)) and p is False):
+            return t.left
+        return None
+    if p is False and isinstance(t, (ast.Name, ast.Attribute, ast.Subscript, ast.Call)):
+        return t
+    return None
+
+
+def _present_tested(t, p):
+    if isinstance(t, ast.Compare) and len(t.ops) == 1 and isinstance(t.comparators[0], ast.Constant) and t.comparators[0].value is None:
+        if (isinstance(t.ops[0], (ast.Is, ast.Eq)) and p is False) or (isinstance(t.ops[0], (ast.IsNot, ast.NotEq)) and p is True):
+            return t.left
+        return None
+    if p is True and isinstance(t, (ast.Name, ast.Attribute, ast.Subscript, ast.Call)):
+        return t
+    return None
+
+
+# ---------------------------------------------------------------------------------------------- R17.i: status / raises
+def check_total(rep, repo, base, roots):
+    """R17.i: every Response built on the render paths keeps the default status (200); the only ``raise`` on the render paths
+    outside the encoder is the rejection of an explicitly requested, unknown format."""
+    from ..effects import Flow
+    from .common import raises_of, raise_type
+    from ..astutil import argn
+    rep.rule('R17.i', 'render paths answer 200: no Response is built with / given another status, and the only raise outside the '
+                      'encoder rejects a format parameter that is present and not in the format table')
+    scope = _module_scope(repo, roots)
+    n_resp = 0
+    for f in scope:
+        for c in walk_body(f.node):
+            if isinstance(c, ast.Call) and base._is_response(f.mod, c):
+                n_resp += 1
+                st = argn(c, 'status', 1)
+                v = base._fold_const(repo, f, st) if st is not None else None
+                ok = st is None or v == 200 or (isinstance(v, str) and v.split(' ')[0] == '200')
+                rep.check('R17.i', fkey(f, 'status of %s' % short(c, 60)), ok,
+                          'built with the default status (200)' if ok else
+                          '%s builds its response with status %s: the renderers answer every endpoint result with a 200'
+                          % (f.qualname, short(st, 40)), f.mod, c)
+        for s in stmts_of(f.node):
+            tg = s.targets if isinstance(s, ast.Assign) else [s.target] if isinstance(s, (ast.AugAssign, ast.AnnAssign)) else []
+            for t in tg:
+                if isinstance(t, ast.Attribute) and t.attr in ('status', 'status_code'):
+                    v = base._fold_const(repo, f, getattr(s, 'value', None))
+                    ok = isinstance(s, ast.Assign) and (v == 200 or (isinstance(v, str) and v.split(' ')[0] == '200'))
+                    rep.check('R17.i', fkey(f, 'status store %s' % norm(s)[:60]), ok, 'status set to 200' if ok else
+                              '%s sets the status of a rendered response (%s): the renderers answer every endpoint result with a 200'
+                              % (f.qualname, short(s, 60)), f.mod, s)
+    if n_resp < 3:
+        raise AnalysisError('render paths: only %d Response construction(s) found' % n_resp)
+    simple = repo.mod(SIMPLE)
+    br = simple.cls('BasicRender')
+    n_reject = 0
+    for f in scope:
+        if f.cls is not None and f.cls.name == 'ClasticJSONEncoder':
+            continue            # R17.d decides the encoder's TypeError
+        fl = None
+        for r in raises_of(f):
+            if r.exc is None:
+                continue        # re-raise inside a handler: nothing new is raised
+            fl = fl or Flow(f)
+            cs = fl.conds(r)
+            asked = [x for x in (_present_tested(t, p) for t, p in cs) if x is not None and _query_param_read(fl, f, x, r)]
+            unknown = []
+            for t, p in cs:
+                if isinstance(t, ast.Compare) and len(t.ops) == 1 and ((isinstance(t.ops[0], ast.NotIn) and p is True) or
+                                                                       (isinstance(t.ops[0], ast.In) and p is False)):
+                    if _query_param_read(fl, f, t.left, r) and _is_format_table(repo, f, fl, t.comparators[0], r, br):
+                        unknown.append(t)
+            if unknown:
+                n_reject += 1
+                ok = bool(asked)
+                rep.check('R17.i', fkey(f, 'raise %s' % (raise_type(r) or '')), ok,
+                          'the rejection is reached only for a format parameter that is present and not in the format table' if ok else
+                          '%s rejects (%s) every request whose format parameter is not in the table -- including the requests that carry '
+                          'no format parameter at all: the test is not guarded by the presence of the parameter (conditions: %s)'
+                          % (f.qualname, raise_type(r), '; '.join(cond_texts(cs))), f.mod, r)
+            else:
+                rep.fail('R17.i', fkey(f, 'raise %s' % short(r.exc, 50)),
+                         '%s raises %s on the render path (conditions: %s): an endpoint result / request that takes this path gets a '
+                         '500 instead of a rendered response; the only documented escape is an explicitly requested unknown format'
+                         % (f.qualname, short(r.exc, 50), '; '.join(cond_texts(cs)) or 'none'), f.mod, r)
+    if not n_reject:
+        rep.ok('R17.i', '%s::render paths: raises' % SIMPLE, 'no raise on the render paths outside the encoder', simple, None)
+
+
+def _is_format_table(repo, f, fl, expr, at, br, depth=0):
+    """The expression denotes the keys of the class's format table: self._format_mime_map (a local alias, .keys(), the
+    ``formats`` property)."""
+    e = fl.resolve(expr, at)
+    while isinstance(e, ast.Call) and isinstance(e.func, ast.Name) and e.func.id in ('list', 'tuple', 'set', 'frozenset', 'sorted') and \
+            len(e.args) == 1 and not e.keywords:
+        e = e.args[0]
+    if isinstance(e, ast.Call) and isinstance(e.func, ast.Attribute) and e.func.attr == 'keys' and not e.args:
+        e = e.func.value
+    if isinstance(e, ast.Attribute) and isinstance(e.value, ast.Name) and e.value.id in ('self', 'cls', br.name):
+        if e.attr == '_format_mime_map':
+            return True
+        m = repo.find_method(br, e.attr)
+        if m is not None and depth < 2 and any(norm(d) == 'property' for d in m.node.decorator_list):
+            rets = returns_of(m)
+            from ..effects import Flow
+            return len(rets) == 1 and rets[0].value is not None and _is_format_table(repo, m, Flow(m), rets[0].value, rets[0], br, depth + 1)
+    return False
+
+
+# ---------------------------------------------------------------------------------------------- R17.k: negotiation provenance
+_WRAPPERS = ('list', 'tuple', 'set', 'frozenset', 'sorted')
+
+
+def _strip_wrappers(e):
+    while isinstance(e, ast.Call) and isinstance(e.func, ast.Name) and e.func.id in _WRAPPERS and len(e.args) == 1 and not e.keywords:
+        e = e.args[0]
+    return e
+
+
+def _table_attr(e, br):
+    return isinstance(e, ast.Attribute) and e.attr == '_format_mime_map' and isinstance(e.value, ast.Name) and \
+        e.value.id in ('self', 'cls', br.name)
+
+
+def _served_mimes(repo, base, f, fl, expr, at, br, served, depth=0):
+    """The expression denotes the collection of mimes the format table serves: table.values(), the ``mimetypes`` property, the
+    inverse table (a property whose keys are the table's values), or a constant collection equal to it."""
+    e = _strip_wrappers(fl.resolve(expr, at))
+    if isinstance(e, ast.Call) and isinstance(e.func, ast.Attribute) and e.func.attr == 'keys' and not e.args:
+        inner = _strip_wrappers(e.func.value)
+        return _inverse_table(repo, base, f, fl, inner, at, br, depth)
+    if isinstance(e, ast.Call) and isinstance(e.func, ast.Attribute) and e.func.attr == 'values' and not e.args:
+        return _table_attr(fl.resolve(e.func.value, at), br)
+    if isinstance(e, (ast.ListComp, ast.SetComp, ast.GeneratorExp)) and len(e.generators) == 1 and not e.generators[0].ifs:
+        g = e.generators[0]
+        it = fl.resolve(g.iter, at)
+        if isinstance(it, ast.Call) and isinstance(it.func, ast.Attribute) and it.func.attr == 'values' and _table_attr(it.func.value, br):
+            return isinstance(g.target, ast.Name) and norm(e.elt) == g.target.id
+    if isinstance(e, ast.Attribute) and isinstance(e.value, ast.Name) and e.value.id in ('self', 'cls', br.name) and depth < 3:
+        m = repo.find_method(br, e.attr)
+        if m is not None and any(norm(d) in ('property', 'cached_property', 'functools.cached_property') for d in m.node.decorator_list):
+            from ..effects import Flow
+            rets = returns_of(m)
+            if len(rets) == 1 and rets[0].value is not None:
+                mfl = Flow(m)
+                return _served_mimes(repo, base, m, mfl, rets[0].value, rets[0], br, served, depth + 1) or \
+                    _inverse_table(repo, base, m, mfl, rets[0].value, rets[0], br, depth + 1)
+            return False
+        dc, v = repo.class_attr(br, e.attr)
+        if dc is not None and isinstance(v, ast.expr):
+            try:
+                val = repo.try_fold(v, dc.mod)
+            except Exception:
+                val = None
+            if isinstance(val, (list, tuple, set, frozenset)):
+                return set(val) == set(served)
+            if isinstance(val, dict):
+                return set(val) == set(served)
+        return False
+    if _inverse_table(repo, base, f, fl, e, at, br, depth):
+        return True
+    try:
+        val = base._fold_const(repo, f, e)
+    except Exception:
+        val = None
+    if isinstance(val, (list, tuple, set, frozenset)) and val:
+        return set(val) == set(served)
+    return False
+
+
+def _inverse_table(repo, base, f, fl, e, at, br, depth=0):
+    """A mapping whose keys are the mimes of the format table: {mime: fmt for fmt, mime in table.items()},
+    dict([(v, k) for k, v in table.items()]), dict((v, k) for ...), dict(zip(table.values(), table.keys())), or a
+    property / attribute of the class holding one."""
+    e = fl.resolve(e, at) if at is not None else e
+    if isinstance(e, ast.Attribute) and isinstance(e.value, ast.Name) and e.value.id in ('self', 'cls', br.name) and depth < 3:
+        m = repo.find_method(br, e.attr)
+        if m is not None and any(norm(d) in ('property', 'cached_property', 'functools.cached_property') for d in m.node.decorator_list):
+            from ..effects import Flow
+            rets = returns_of(m)
+            return len(rets) == 1 and rets[0].value is not None and _inverse_table(repo, base, m, Flow(m), rets[0].value, rets[0], br, depth + 1)
+        return False
+    comp = None
+    if isinstance(e, ast.DictComp):
+        comp, key = e, e.key
+    elif isinstance(e, ast.Call) and isinstance(e.func, ast.Name) and e.func.id == 'dict' and len(e.args) == 1 and not e.keywords:
+        a = e.args[0]
+        if isinstance(a, (ast.ListComp, ast.GeneratorExp)) and isinstance(a.elt, ast.Tuple) and len(a.elt.elts) == 2:
+            comp, key = a, a.elt.elts[0]
+        elif isinstance(a, ast.Call) and isinstance(a.func, ast.Name) and a.func.id == 'zip' and len(a.args) == 2:
+            k, v = a.args
+            return isinstance(k, ast.Call) and isinstance(k.func, ast.Attribute) and k.func.attr == 'values' and \
+                _table_attr(fl.resolve(k.func.value, at), br)
+    if comp is None or len(comp.generators) != 1 or comp.generators[0].ifs:
+        return False
+    g = comp.generators[0]
+    it = fl.resolve(g.iter, at)
+    if not (isinstance(it, ast.Call) and isinstance(it.func, ast.Attribute) and it.func.attr == 'items' and _table_attr(it.func.value, br)):
+        return False
+    return isinstance(g.target, ast.Tuple) and len(g.target.elts) == 2 and isinstance(g.target.elts[1], ast.Name) and \
+        norm(key) == g.target.elts[1].id
+
+
+def check_negotiation(rep, repo, base):
+    """R17.k: the mime that decides how a mapping / sequence is serialized derives from this request's format parameter
+    (looked up in the format table), else from this request's Accept header matched against the served mimes, else it is
+    the default -- nothing else flows into it, and in that order of precedence."""
+    from ..effects import Flow
+    simple = repo.mod(SIMPLE)
+    rep.rule('R17.k', 'provenance of the negotiated mime: format table lookup of this request\'s format parameter, else best_match of '
+                      'this request\'s Accept header over the served mimes, else the default mime -- nothing else, in that precedence')
+    sr = simple.func('BasicRender._serialize_to_resp')
+    br = simple.cls('BasicRender')
+    try:
+        fmm = repo.fold(repo.class_attr(br, '_format_mime_map')[1], simple)
+        dm = repo.fold(repo.class_attr(br, '_default_mime')[1], simple)
+    except Exception as e:
+        try:
+            fmm = dict(repo.fold(repo.class_attr(br, '_format_mime_map')[1].args[0], simple)) if repo.class_attr(br, '_format_mime_map')[1].args else {}
+            fmm.update((k.arg, repo.fold(k.value, simple)) for k in repo.class_attr(br, '_format_mime_map')[1].keywords)
+            dm = repo.fold(repo.class_attr(br, '_default_mime')[1], simple)
+        except Exception:
+            raise AnalysisError('cannot fold BasicRender format tables: %s' % e)
+    if not isinstance(fmm, dict) or not isinstance(dm, str):
+        raise AnalysisError('cannot fold BasicRender format tables')
+    served = set(fmm.values())
+    fl = Flow(sr)
+    mod = sr.mod
+    # the value the dispatch looks at: whatever is compared with a served mime
+    cands = []
+    for n in walk_body(sr.node):
+        if isinstance(n, ast.Compare) and len(n.ops) == 1 and isinstance(n.ops[0], (ast.Eq, ast.NotEq, ast.In, ast.NotIn)):
+            l, r = n.left, n.comparators[0]
+            for a, b in ((l, r), (r, l)):
+                if isinstance(n.ops[0], (ast.In, ast.NotIn)) and a is r:
+                    continue
+                try:
+                    v = base._fold_const(repo, sr, b)
+                except Exception:
+                    v = None
+                if isinstance(n.ops[0], (ast.In, ast.NotIn)):
+                    hit = isinstance(v, (tuple, list, set, frozenset)) and len(v) == 1 and set(v) <= served
+                else:
+                    hit = isinstance(v, str) and v in served
+                if hit and base._fold_const(repo, sr, a) is None:
+                    cands.append((a, stmt_of(mod, n)))
+    if not cands:
+        raise AnalysisError('_serialize_to_resp: no test of the negotiated mime against a served mime was found')
+
+    def classify(v, at):
+        """'F' / 'A' / 'D' / 'none' / ('other', why)"""
+        e = fl.resolve(v, at)
+        if isinstance(e, ast.Constant) and e.value is None:
+            return 'none'
+        if isinstance(e, ast.Call) and isinstance(e.func, ast.Attribute) and e.func.attr == 'get' and _table_attr(fl.resolve(e.func.value, at), br):
+            if 1 <= len(e.args) <= 2 and not e.keywords and _query_param_read(fl, sr, v.args[0] if isinstance(v, ast.Call) and v.args else e.args[0], at):
+                if len(e.args) == 1 or (isinstance(e.args[1], ast.Constant) and e.args[1].value is None):
+                    return 'F'
+            return ('other', 'the format table is not looked up with this request\'s format parameter')
+        if isinstance(e, ast.Subscript) and _table_attr(fl.resolve(e.value, at), br):
+            if _query_param_read(fl, sr, v.slice if isinstance(v, ast.Subscript) else e.slice, at):
+                return 'F'
+            return ('other', 'the format table is not looked up with this request\'s format parameter')
+        if isinstance(e, ast.Call) and isinstance(e.func, ast.Attribute) and e.func.attr == 'best_match':
+            recv = e.func.value
+            if not (isinstance(recv, ast.Attribute) and recv.attr == 'accept_mimetypes' and isinstance(recv.value, ast.Name) and
+                    recv.value.id in _request_params(sr)):
+                return ('other', 'best_match is not applied to the Accept header of the request being rendered')
+            if len(e.args) != 1 or e.keywords:
+                return ('other', 'best_match is given more than the offered mimes')
+            offered = v.args[0] if isinstance(v, ast.Call) and len(v.args) == 1 else e.args[0]
+            if not _served_mimes(repo, base, sr, fl, offered, at, br, served):
+                return ('other', 'the mimes offered to the Accept negotiation (%s) are not the mimes the format table serves %s'
+                        % (short(offered, 40), sorted(served)))
+            return 'A'
+        if isinstance(e, ast.Attribute) and e.attr == '_default_mime' and isinstance(e.value, ast.Name) and e.value.id in ('self', 'cls', br.name):
+            return 'D'
+        try:
+            c = base._fold_const(repo, sr, e)
+        except Exception:
+            c = None
+        if isinstance(c, str):
+            return 'D' if c == dm else ('other', 'the constant %r is not the default mime %r' % (c, dm))
+        return ('other', 'it is neither this request\'s format parameter, its Accept header nor the default mime')
+
+    def split(lf):
+        """Leaves of a leaf whose value is ``a or b`` / ``a and b``: [(value, stmt, conds)]"""
+        v = lf.value
+        if isinstance(v, ast.BoolOp):
+            out = []
+            if isinstance(v.op, ast.Or):
+                for i, x in enumerate(v.values):
+                    out.extend(split(type(lf)(x, lf.stmt, list(lf.conds) + [(y, False) for y in v.values[:i]], lf.opaque)))
+            else:
+                out.extend(split(type(lf)(v.values[-1], lf.stmt, list(lf.conds) + [(y, True) for y in v.values[:-1]], lf.opaque)))
+            return out
+        return [lf]
+
+    def kinds_of(expr, at):
+        out = []
+        for lf0 in fl.leaves(expr, at):
+            for lf in split(lf0):
+                if lf.opaque:
+                    raise AnalysisError('_serialize_to_resp: a value flowing into the negotiated mime cannot be named (%s)' % short(lf.value, 50))
+                out.append((classify(lf.value, lf.stmt), lf))
+        return out
+
+    seen = set()
+    for m_expr, at in cands:
+        key = norm(m_expr)
+        if key in seen:
+            continue
+        seen.add(key)
+        ks = kinds_of(m_expr, at)
+        others = [(k, lf) for k, lf in ks if isinstance(k, tuple)]
+        for k, lf in others:
+            rep.fail('R17.k', fkey(sr, 'source %s' % short(lf.value, 60)),
+                     'the mime that decides between JSON and the HTML table can be %s: %s -- the representation must follow from this '
+                     'request\'s format parameter, else its Accept header, else the default' % (short(lf.value, 60), k[1]), mod, lf.stmt)
+        have = set(k for k, lf in ks if not isinstance(k, tuple))
+        for want, what in (('F', 'the format table lookup of the request\'s format parameter'),
+                           ('A', 'the Accept negotiation (best_match over the served mimes)'), ('D', 'the default mime')):
+            rep.check('R17.k', fkey(sr, 'source %s of %s' % (want, key)), want in have or bool(others),
+                      '%s flows into the negotiated mime' % what if want in have else
+                      ('(not judged: another source was found)' if others else
+                       '%s never flows into the mime the dispatch tests (%s): that way of asking for a representation is ignored' % (what, key)),
+                      mod, at)
+        # precedence
+        for k, lf in ks:
+            if k == 'A':
+                ok = False
+                for t, p in lf.conds:
+                    x = _absent_tested(t, p)
+                    if x is None:
+                        continue
+                    sub = [kk for kk, _ in kinds_of(x, lf.stmt)] if not _query_param_read(fl, sr, x, lf.stmt) else ['F']
+                    if sub and all(kk in ('F', 'none') for kk in sub) and 'F' in sub:
+                        ok = True
+                rep.check('R17.k', fkey(sr, 'precedence: Accept after format'), ok,
+                          'the Accept header is consulted only when the format parameter chose nothing' if ok else
+                          'the Accept negotiation is not subordinate to the explicit format parameter (conditions of %s: %s): a request '
+                          'with ?format= can be answered in the representation its Accept header prefers'
+                          % (short(lf.value, 50), '; '.join(cond_texts(lf.conds)) or 'none'), mod, lf.stmt)
+            if k == 'D':
+                ok = False
+                for t, p in lf.conds:
+                    x = _absent_tested(t, p)
+                    if x is None and isinstance(t, ast.Compare) and len(t.ops) == 1 and \
+                            ((isinstance(t.ops[0], ast.NotIn) and p is True) or (isinstance(t.ops[0], ast.In) and p is False)) and \
+                            _served_mimes(repo, base, sr, fl, t.comparators[0], lf.stmt, br, served):
+                        x = t.left
+                    if x is None:
+                        continue
+                    sub = [kk for kk, _ in kinds_of(x, lf.stmt)]
+                    if sub and all(kk in ('F', 'A', 'none') for kk in sub):
+                        ok = True
+                rep.check('R17.k', fkey(sr, 'precedence: default last'), ok,
+                          'the default mime replaces only a negotiation result that is absent / not served' if ok else
+                          'the default mime is not the last resort (conditions of %s: %s): it can replace what the format parameter or '
+                          'the Accept header asked for' % (short(lf.value, 50), '; '.join(cond_texts(lf.conds)) or 'none'), mod, lf.stmt)
